@@ -208,8 +208,17 @@ pub fn gen_c07(rng: &mut Rng, tier: Tier) -> NetProgram {
                 slowest_gap = slowest_gap.max(tx);
                 t += gap.max(if tx == 0 { rng.below(2000) } else { 0 });
             }
+            // now and then a window of many packets from one handler that first re-arms its timer
+            if rng.chance(1, 10) {
+                let n = 34 + rng.usize(30);
+                let body = rng.below(6) as u8;
+                beats.push(Beat { at_ns: t + rng.below(1000), acts: (0..n).map(|_| Act::Send { gate: 0, delay_ns: 0, body }).collect() });
+                beats.push(Beat { at_ns: t + 1_000_000 + rng.below(1000) * 1000, acts: vec![Act::Send { gate: 0, delay_ns: 0, body: 0 }] });
+                prog.modules[mi].chained = true;
+            } else {
+                prog.modules[mi].chained = rng.chance(1, 2);
+            }
             prog.modules[mi].beats = beats;
-            prog.modules[mi].chained = rng.chance(1, 2);
         }
     }
     prog.order = (0..prog.modules.len() as u32).collect();
@@ -349,6 +358,12 @@ pub fn gen_c14(rng: &mut Rng, _tier: Tier) -> NetProgram {
         if rng.chance(1, 8) {
             prog.modules[i].tasks.push(crate::asy::TaskSpec { local: false, join: 1, steps: vec![crate::asy::AStep::Wait] });
         }
+        // a panic that the module's stereotype catches: the bracket of that event must still be closed
+        if rng.chance(1, 12) && !prog.modules[i].beats.is_empty() {
+            prog.modules[i].catching = true;
+            let bi = rng.usize(prog.modules[i].beats.len());
+            prog.modules[i].beats[bi].acts.push(Act::Panic);
+        }
         // now and then a large burst of same-instant emissions from one handler
         if rng.chance(1, 10) {
             let g = rng.below(2) as u32;
@@ -406,6 +421,23 @@ pub fn gen_c04(rng: &mut Rng, tier: Tier) -> NetProgram {
             prog.modules[i].rx.push(RxRule { nth: 1 + rng.below(4) as u32, act: Act::Random });
         }
         prog.modules[i].tasks = crate::asy::gen_tasks_c04(rng);
+    }
+    prog.share_channels = rng.chance(1, 3);
+    if prog.share_channels {
+        // few distinct metrics, so that several links really share one object
+        let menu = [
+            Chan { bitrate: 1_000_000, latency_ns: 1_000_000, jitter_ns: 0, queue: -1 },
+            Chan { bitrate: 10_000, latency_ns: 0, jitter_ns: 1_000_000, queue: -2 },
+        ];
+        for l in &mut prog.links {
+            if l.chan.is_some() {
+                l.chan = Some(rng.pick(&menu).clone());
+            }
+        }
+    }
+    if rng.chance(1, 3) {
+        prog.n = *rng.pick(&[1usize, 3, 64, 1028]);
+        prog.t_ns = *rng.pick(&[1_000_000u64, 2_500_000, 100_000_000]);
     }
     // modules may emit from at_sim_end: that must not reach any later simulation
     if rng.chance(1, 3) {
@@ -597,6 +629,18 @@ pub fn gen_c13(rng: &mut Rng, tier: Tier) -> NetProgram {
             _ => prog.modules[v].rx.push(RxRule { nth: 1 + rng.below(4) as u32, act: Act::Panic }),
         }
     }
+    // a module that panics in a start-up stage of a *restart* (not of the initial start)
+    if rng.chance(1, 6) {
+        let v = rng.usize(nmod);
+        if prog.modules[v].panic_at == 255 && !prog.modules[v].beats.is_empty() {
+            let stage = rng.below(u64::from(prog.modules[v].stages.clamp(1, 4))) as u8;
+            prog.modules[v].panic_at = stage;
+            prog.modules[v].panic_inc = 1;
+            prog.modules[v].catching = rng.chance(1, 3);
+            let bi = rng.usize(prog.modules[v].beats.len());
+            prog.modules[v].beats[bi].acts.push(Act::Shutdown { restart: (rng.below(4) * 250_000_000) as i64, at: rng.chance(1, 2) });
+        }
+    }
     // a victim's delayed sends would be dropped at their exit time (the owner of the sending gate is inactive then),
     // which "merely fallen silent" does not define: victims send immediately only
     for m in &mut prog.modules {
@@ -623,6 +667,12 @@ pub fn gen_c13(rng: &mut Rng, tier: Tier) -> NetProgram {
             prog.modules[v].tasks.push(crate::asy::TaskSpec { local: rng.chance(1, 3), join: 2, steps: vec![crate::asy::AStep::Wait] });
         }
         prog.modules[v].tasks.push(t);
+        // the module may be shut down / restarted after its task panicked: the panic must still be reported
+        if rng.chance(1, 3) {
+            let restart = if rng.chance(1, 2) { -1 } else { (rng.below(4) * 250_000_000) as i64 };
+            prog.modules[v].beats.push(Beat { at_ns: 2 * SEC + rng.below(8) * 250_000_000, acts: vec![Act::Shutdown { restart, at: false }] });
+            prog.modules[v].beats.sort_by_key(|b| b.at_ns);
+        }
     }
     prog
 }
@@ -631,24 +681,31 @@ pub fn gen_c13(rng: &mut Rng, tier: Tier) -> NetProgram {
 
 pub fn gen_c16(rng: &mut Rng, tier: Tier) -> NetProgram {
     let nmod = 2 + rng.small(3) as usize;
-    let mut prog = base_model(rng, nmod, if tier == Tier::Thorough { 16 } else { 10 }, (2, 3), crate::bodies::N_BODIES);
+    // bulk transfers (one message of 0.5 .. 2 GiB, declared with Body::new_with_len) only over fast links
+    let bulk = rng.chance(1, 6);
+    let kinds = if bulk { crate::bodies::N_BODIES } else { crate::bodies::N_BODIES - 1 };
+    let mut prog = base_model(rng, nmod, if tier == Tier::Thorough { 16 } else { 10 }, (2, 3), kinds);
     // lossy channels: busy Drop, byte-bounded queues
     for l in &mut prog.links {
         if let Some(c) = &mut l.chan {
-            c.bitrate = *rng.pick(&[10_000u64, 1_000_000, 100_000_000]);
+            c.bitrate = if bulk { *rng.pick(&[1_000_000_000u64, 10_000_000_000]) } else { *rng.pick(&[10_000u64, 1_000_000, 100_000_000]) };
             c.queue = *rng.pick(&[-2i64, -1, 0, 200, 1200]);
         }
     }
+    if bulk {
+        prog.n = 64;
+        prog.t_ns = 100_000_000;
+    }
     for m in &mut prog.modules {
         let n = 1 + rng.small(6) as usize;
-        m.rx_ops = (0..n).map(|_| rng.below(7) as u8).collect();
+        m.rx_ops = (0..n).map(|_| rng.below(8) as u8).collect();
         // bursts, so that busy channels and full queues really lose messages
         for b in &mut m.beats {
             if rng.chance(1, 2) {
                 let extra = 1 + rng.small(4) as usize;
                 for _ in 0..extra {
                     if let Some(Act::Send { gate, .. }) = b.acts.first().cloned() {
-                        b.acts.push(Act::Send { gate, delay_ns: 0, body: rng.below(u64::from(crate::bodies::N_BODIES)) as u8 });
+                        b.acts.push(Act::Send { gate, delay_ns: 0, body: rng.below(u64::from(kinds)) as u8 });
                     }
                 }
             }
